@@ -13,6 +13,7 @@ import (
 	"fmt"
 	"os"
 	"path/filepath"
+	"runtime"
 	"strings"
 	"sync"
 	"testing"
@@ -57,6 +58,9 @@ const (
 	// listed-finding ids (only honoured while /verif/known_findings.json lists them)
 	findOversize = "recycled-reply-buffer-exceeds-msize" // D11
 	findErrNoFit = "error-reply-does-not-fit-buffer"     // D10
+	// a client that offered more msize than it was granted builds requests in
+	// the recycled pre-negotiation Fcall: a long name goes out above msize
+	findClntRecycled = "client-recycled-fcall-exceeds-msize"
 )
 
 func eff(s uint32) uint32 {
@@ -950,6 +954,305 @@ func TestEnumClient(t *testing.T) {
 	}
 	hx.ExtraAdd("client_negotiations", int64(n))
 	hx.Exhaustive("go9p.Connect: server msize grid x client msize {0, 1, 20, 21, 23, 24, 25, s-1, s, s+1, 2^16} x dialect wishes of both sides against go9p's Srv; and client msize {24, 25, 128, 8192, 65560, 1 MiB+24} x Rversion.msize {24, c-1, c, c+1, 2^16, 2^32-1} x Rversion.version x client dialect against a harness peer")
+}
+
+// ---------------------------------------------------------------------------
+// 2b. the client after the negotiation: the frames IT sends are held to the
+// negotiated msize too. A harness peer grants an msize, answers Topen / Tcreate
+// with an iounit of its choice and the client is asked to move more than msize
+// bytes in one call; every frame the client writes is cut on its size prefix and
+// decoded by ref9p in the negotiated dialect.
+
+type ClntIOCase struct {
+	CliMsize uint32 `json:"cli_msize"` // what Connect offers
+	RMsize   uint32 `json:"r_msize"`   // what the peer's Rversion says
+	CliDotu  bool   `json:"cli_dotu"`
+	RVersion string `json:"r_version"`
+	Create   bool   `json:"create"` // Tcreate instead of Topen
+	Iounit   uint32 `json:"iounit"` // iounit of the Ropen / Rcreate
+	Op       string `json:"op"`     // Clnt.Write, File.Write, File.Written, Clnt.Read, File.Readn
+	Len      uint32 `json:"len"`    // bytes the caller asks to move in one call
+}
+
+type ioResult struct {
+	steps []string // what the calls returned, for the report
+}
+
+func runClntIO(c *ClntIOCase) error {
+	if c.CliMsize > 4*defMsize || c.RMsize > 4*defMsize || c.CliMsize < 64 || c.RMsize < 64 || c.Len > 4*defMsize {
+		return fmt.Errorf("harness: client I/O cases need msizes >= 64 and moderate buffers")
+	}
+	h, lib := xport.Pair("c12cio")
+	peer := rawc.New(h)
+	defer peer.Close()
+	M := min32(c.CliMsize, c.RMsize)
+	dotu := c.CliDotu && c.RVersion == "9P2000.u"
+	fileLen := uint64(c.Len) + 10
+
+	done := make(chan ioResult, 1)
+	go func() {
+		var res ioResult
+		note := func(format string, a ...interface{}) { res.steps = append(res.steps, fmt.Sprintf(format, a...)) }
+		defer func() { done <- res }()
+		cl, err := go9p.Connect(lib, c.CliMsize, c.CliDotu)
+		if err != nil {
+			note("Connect: %v", err)
+			_ = lib.Close()
+			return
+		}
+		defer cl.Unmount()
+		// requests whose length the caller chooses: a name of Len bytes
+		longName := func() string { return strings.Repeat("n", int(c.Len)) }
+		aname := ""
+		if c.Op == "Clnt.Attach" {
+			aname = longName()
+		}
+		root, err := cl.Attach(nil, go9p.OsUsers.Uid2User(0), aname)
+		if err != nil {
+			note("Attach: %v", err)
+			return
+		}
+		switch c.Op {
+		case "Clnt.Attach":
+			note("Clnt.Attach with an aname of %d bytes: err=%v", c.Len, err)
+			return
+		case "Clnt.Walk":
+			_, err = cl.Walk(root, cl.FidAlloc(), []string{"a", longName()})
+			note("Clnt.Walk with a name of %d bytes: err=%v", c.Len, err)
+			return
+		case "Clnt.Create":
+			err = cl.Create(root, longName(), 0644, go9p.ORDWR, "")
+			note("Clnt.Create with a name of %d bytes: err=%v", c.Len, err)
+			return
+		}
+		if c.Create {
+			err = cl.Create(root, "f", 0644, go9p.ORDWR, "")
+		} else {
+			err = cl.Open(root, go9p.ORDWR)
+		}
+		if err != nil {
+			note("Open/Create: %v", err)
+			return
+		}
+		buf := script.PRF("c12 client data", int(c.Len))
+		var n int
+		switch c.Op {
+		case "Clnt.Write":
+			n, err = cl.Write(root, buf, 0)
+		case "File.Write":
+			n, err = go9p.FidFile(root, 0).Write(buf)
+		case "File.Written":
+			n, err = go9p.FidFile(root, 0).Written(buf, 0)
+		case "Clnt.Read":
+			var b []byte
+			b, err = cl.Read(root, 0, c.Len)
+			n = len(b)
+		case "File.Readn":
+			n, err = go9p.FidFile(root, 0).Readn(buf, 0)
+		default:
+			note("harness: unknown op %q", c.Op)
+			return
+		}
+		note("%s of %d bytes: n=%d err=%v", c.Op, c.Len, n, err)
+	}()
+
+	// the peer: Tversion first
+	f, err := peer.RecvRaw(deadline)
+	if err == rawc.ErrTimeout {
+		return hangErr("the client sent no Tversion")
+	}
+	if err != nil {
+		return violf("Connect(msize %d) sent no Tversion", c.CliMsize)
+	}
+	if m, _, derr := ref9p.Decode(f, false); derr != nil || m.Type != ref9p.Tversion || m.Msize != c.CliMsize {
+		return violf("the client's first message is not the Tversion offering msize %d: %v: %x", c.CliMsize, derr, clip(f))
+	}
+	_ = peer.SendRaw(ref9p.Encode(&ref9p.Msg{Type: ref9p.Rversion, Tag: ref9p.NOTAG, Msize: c.RMsize, Version: c.RVersion}, false))
+
+	where := fmt.Sprintf("negotiated msize %d (client offered %d, peer answered %d), 9P2000.u=%v, %s answered with iounit %d, %s of %d bytes",
+		M, c.CliMsize, c.RMsize, dotu, map[bool]string{false: "Topen", true: "Tcreate"}[c.Create], c.Iounit, c.Op, c.Len)
+	if nameOp(c.Op) {
+		where = fmt.Sprintf("negotiated msize %d (client offered %d, peer answered %d), 9P2000.u=%v, %s with a name of %d bytes", M, c.CliMsize, c.RMsize, dotu, c.Op, c.Len)
+	}
+	var verdict error
+	frames, moved := 0, uint64(0)
+	qid := ref9p.Qid{Type: 0, Vers: 1, Path: 77}
+	for verdict == nil {
+		f, err := peer.RecvRaw(deadline)
+		if err == rawc.ErrTimeout {
+			verdict = hangErr("client I/O: neither a request nor a hang-up from the client (" + where + ")")
+			break
+		}
+		if err != nil {
+			break // the client is done and has unmounted
+		}
+		frames++
+		var m *ref9p.Msg
+		if uint64(len(f)) > uint64(M) {
+			name := "frame"
+			if len(f) > 4 {
+				name = ref9p.TypeName(f[4])
+			}
+			v := &viol{msg: fmt.Sprintf("the client sent a %s of %d bytes: %s: %x…", name, len(f), where, clip(f))}
+			if nameOp(c.Op) && c.CliMsize > M {
+				v.finding = findClntRecycled
+			}
+			verdict = v
+			break
+		}
+		var derr error
+		if m, _, derr = ref9p.Decode(f, dotu); derr != nil {
+			verdict = violf("the client sent a frame that is not well-formed in the negotiated dialect: %v: %s: %x", derr, where, clip(f))
+			break
+		}
+		r := &ref9p.Msg{Tag: m.Tag}
+		switch m.Type {
+		case ref9p.Tattach:
+			r.Type, r.Qid = ref9p.Rattach, qid
+		case ref9p.Twalk:
+			r.Type, r.Wqid = ref9p.Rwalk, make([]ref9p.Qid, len(m.Wname))
+		case ref9p.Topen:
+			r.Type, r.Qid, r.Iounit = ref9p.Ropen, qid, c.Iounit
+		case ref9p.Tcreate:
+			r.Type, r.Qid, r.Iounit = ref9p.Rcreate, qid, c.Iounit
+		case ref9p.Twrite:
+			r.Type, r.Count = ref9p.Rwrite, uint32(len(m.Data))
+			moved += uint64(len(m.Data))
+		case ref9p.Tread:
+			if uint64(m.Count) > uint64(M-iohdr) {
+				verdict = violf("the client sent a Tread asking for %d bytes, more than fits a reply (msize-%d = %d): %s", m.Count, iohdr, M-iohdr, where)
+				break
+			}
+			n := uint64(m.Count)
+			if m.Offset >= fileLen {
+				n = 0
+			} else if fileLen-m.Offset < n {
+				n = fileLen - m.Offset
+			}
+			r.Type, r.Data = ref9p.Rread, script.PRF("c12 peer file", int(n))
+			moved += n
+		case ref9p.Tclunk:
+			r.Type = ref9p.Rclunk
+		default:
+			r.Type, r.Ename = ref9p.Rerror, "no"
+		}
+		if verdict == nil {
+			_ = peer.SendRaw(ref9p.Encode(r, dotu))
+		}
+	}
+	peer.Close() // a client still waiting for a reply gets its error
+	var res ioResult
+	select {
+	case res = <-done:
+	case <-time.After(deadline):
+		if verdict != nil {
+			return verdict
+		}
+		return hangErr("client I/O: the client's call did not return after the peer hung up (" + where + ")")
+	}
+	if verdict != nil {
+		var v *viol
+		if errors.As(verdict, &v) {
+			v.msg += fmt.Sprintf(" [client calls: %s]", strings.Join(res.steps, "; "))
+		}
+		return verdict
+	}
+	if frames < 2 && !nameOp(c.Op) {
+		return fmt.Errorf("harness: the client I/O case ended after %d requests: %s: %s", frames, where, strings.Join(res.steps, "; "))
+	}
+	if frames < 3 && !nameOp(c.Op) {
+		// the call failed inside the client (it could not build the request):
+		// nothing illegal was sent
+		hx.Label("client I/O call refused by the client itself")
+	}
+	if moved > 0 {
+		hx.Label("client I/O moved data")
+	} else {
+		hx.Label("client I/O moved no data")
+	}
+	return nil
+}
+
+// nameOp: the request's length is chosen by the caller through a name (Len
+// bytes); the client must refuse to build it rather than send it.
+func nameOp(op string) bool { return op == "Clnt.Attach" || op == "Clnt.Walk" || op == "Clnt.Create" }
+
+func execClntIO(c *ClntIOCase) error {
+	hx.Journal("clntio", c)
+	hx.Eval()
+	hx.Sample("clntio", c)
+	M := min32(c.CliMsize, c.RMsize)
+	hx.Label(fmt.Sprintf("client I/O %s, offered msize %s granted", c.Op, map[bool]string{true: "=", false: ">"}[c.CliMsize == M]))
+	if nameOp(c.Op) || c.Iounit == 0 || c.Iounit > M-iohdr || c.CliMsize != M {
+		hx.NonTrivial("clntio", c.CliMsize, c.RMsize, c.CliDotu, c.RVersion, c.Create, c.Iounit, c.Op, c.Len)
+	}
+	return finish(runClntIO(c))
+}
+
+// clntNameOps: also drive the client with requests whose length the caller
+// chooses (long names). Found go9p's Clnt.NewFcall handing out the recycled
+// pre-negotiation Fcall untrimmed (repaired in /repo 7c23848; the finding id
+// client-recycled-fcall-exceeds-msize is kept on such violations).
+const clntNameOps = true
+
+func TestEnumClientIO(t *testing.T) {
+	idx, n := 0, 0
+	one := func(cc *ClntIOCase) {
+		idx++
+		if hx.NShards > 1 && idx%hx.NShards != hx.Shard {
+			return
+		}
+		n++
+		if err := execClntIO(cc); err != nil {
+			hx.Violation("clntio", cc, err.Error())
+			t.Fatalf("%+v: %v", cc, err)
+		}
+	}
+	ops := []string{"Clnt.Write", "File.Write", "File.Written", "Clnt.Read", "File.Readn"}
+	for _, M := range []uint32{64, 256, 4096} {
+		// (offered, answered): equal; the peer answers more than was offered (2^16,
+		// not 2^32-1: a client that adopted it would allocate that much per
+		// request); the client offered just enough more, and much more, than it
+		// was granted
+		for _, cf := range [][2]uint32{{M, M}, {M, 1 << 16}, {M + iohdr, M}, {1 << 16, M}} {
+			for _, dotu := range []bool{false, true} {
+				for _, create := range []bool{false, true} {
+					for _, iou := range []uint32{0, 1, M - 25, M - 24, M - 23, M, M + 1, 0xFFFFFFFF} {
+						for _, op := range ops {
+							rv := "9P2000"
+							if dotu {
+								rv = "9P2000.u"
+							}
+							one(&ClntIOCase{CliMsize: cf[0], RMsize: cf[1], CliDotu: dotu, RVersion: rv, Create: create, Iounit: iou, Op: op, Len: M + 50})
+						}
+					}
+				}
+			}
+		}
+	}
+	// requests whose length the caller chooses (a name of Len bytes): lengths that
+	// put the request just below, at and above the negotiated msize
+	if clntNameOps {
+		for _, M := range []uint32{64, 256, 4096} {
+			for _, cf := range [][2]uint32{{M, M}, {M, 1 << 16}, {M + iohdr, M}, {1 << 16, M}} {
+				for _, dotu := range []bool{false, true} {
+					rv := "9P2000"
+					if dotu {
+						rv = "9P2000.u"
+					}
+					for _, op := range []string{"Clnt.Attach", "Clnt.Walk", "Clnt.Create"} {
+						for ln := M - 30; ln <= M-15; ln++ {
+							one(&ClntIOCase{CliMsize: cf[0], RMsize: cf[1], CliDotu: dotu, RVersion: rv, Op: op, Len: ln})
+						}
+						one(&ClntIOCase{CliMsize: cf[0], RMsize: cf[1], CliDotu: dotu, RVersion: rv, Op: op, Len: M + 50})
+					}
+				}
+			}
+		}
+		hx.Exhaustive("client requests of caller-chosen length (same msize configurations x dialect): Clnt.Attach / Clnt.Walk / Clnt.Create with a name of {m-30 .. m-15, m+50} bytes, i.e. requests just below, at and above the negotiated msize: no client frame above the negotiated msize")
+	}
+	hx.ExtraAdd("client_io_cases", int64(n))
+	hx.Exhaustive("client frames after the negotiation (go9p.Connect against a harness peer): granted msize {64, 256, 4096} x (offered, answered) {(m, m), (m, 2^16), (m+24, m), (2^16, m)} x dialect x {Topen, Tcreate} answered with iounit {0, 1, m-25, m-24, m-23, m, m+1, 2^32-1} x {Clnt.Write, File.Write, File.Written, Clnt.Read, File.Readn} of m+50 bytes: no client frame above the negotiated msize, every one well-formed in the negotiated dialect, no Tread asking for more than msize-24")
 }
 
 // ---------------------------------------------------------------------------
@@ -1893,6 +2196,17 @@ type PipeCase struct {
 	Mode     string `json:"mode"` // hdr: 7-byte header only; full: a complete request of that size
 	Mid      bool   `json:"mid"`  // a small legal request between the Tversion and the frame
 	Cut      int    `json:"cut"`  // 0: one write; n > 0: two writes, the first of n bytes
+	// VTag: the tag the Tversion carries (nil: NOTAG, as every ordinary client
+	// sends it). Any tag is legal on the wire; the Rversion must carry it and
+	// the exchange must be in force for the frame behind it all the same.
+	VTag *uint16 `json:"vtag,omitempty"`
+}
+
+func (c *PipeCase) vtag() uint16 {
+	if c.VTag == nil {
+		return ref9p.NOTAG
+	}
+	return *c.VTag
 }
 
 // attachOfSize builds a well-formed Tattach (fid 0, root) of exactly n bytes,
@@ -1930,6 +2244,10 @@ func awaitDrop(l *link, what string) error {
 		if i > 20000 {
 			return hangErr(what + ": the server neither closed the connection nor went back to reading")
 		}
+		if i < 64 {
+			runtime.Gosched() // the server usually decides within microseconds
+			continue
+		}
 		time.Sleep(500 * time.Microsecond)
 	}
 }
@@ -1949,7 +2267,16 @@ func runPipe(c *PipeCase) error {
 		return fmt.Errorf("harness: pipelined cases need a Tversion that is accepted")
 	}
 	dotu := wver == "9P2000.u"
-	stream := ref9p.Encode(&ref9p.Msg{Type: ref9p.Tversion, Tag: ref9p.NOTAG, Msize: c.CliMsize, Version: ver}, false)
+	vtag := c.vtag()
+	stream := ref9p.Encode(&ref9p.Msg{Type: ref9p.Tversion, Tag: vtag, Msize: c.CliMsize, Version: ver}, false)
+	if c.VTag != nil {
+		// the requests behind the Tversion never share its tag (a tag in use twice
+		// is another property's subject)
+		l.tag = 0x4000
+		if vtag >= 0x4000 && vtag < 0x4004 {
+			l.tag = 0x5000
+		}
+	}
 	var midTag uint16
 	if c.Mid {
 		midTag = l.nextTag()
@@ -1989,8 +2316,8 @@ func runPipe(c *PipeCase) error {
 		l.write(stream)
 	}
 	legal := c.Size >= 7 && c.Size <= M
-	what := fmt.Sprintf("a frame announcing %d bytes (%s) pipelined behind the Tversion that lowers msize from %d to %d (cut %d of %d)", c.Size, c.Mode, S, M, c.Cut, len(stream))
-	hx.Label(fmt.Sprintf("pipelined %s legal=%v cut=%v mid=%v", c.Mode, legal, c.Cut > 0, c.Mid))
+	what := fmt.Sprintf("a frame announcing %d bytes (%s) pipelined behind the Tversion (tag %d, version %q) that lowers msize from %d to %d (cut %d of %d)", c.Size, c.Mode, vtag, ver, S, M, c.Cut, len(stream))
+	hx.Label(fmt.Sprintf("pipelined %s legal=%v cut=%v mid=%v Tversion tag NOTAG=%v", c.Mode, legal, c.Cut > 0, c.Mid, c.VTag == nil))
 
 	// collect what the server writes; the Rversion is checked when it is seen
 	// (a server that hangs up may drop replies it had queued)
@@ -1998,8 +2325,11 @@ func runPipe(c *PipeCase) error {
 	check := func(f []byte) (*ref9p.Msg, error) {
 		if !sawVersion {
 			r, _, derr := ref9p.Decode(f, false)
-			if derr != nil || r.Type != ref9p.Rversion || r.Tag != ref9p.NOTAG {
+			if derr != nil || r.Type != ref9p.Rversion {
 				return nil, violf("%s: the first frame from the server is not the Rversion: %x", what, clip(f))
+			}
+			if r.Tag != vtag {
+				return nil, violf("%s: the Rversion carries tag %d: %x", what, r.Tag, clip(f))
 			}
 			if r.Msize != M || r.Version != wver {
 				return nil, violf("Tversion msize=%d version=%q against a server limit of %d yields msize %d version %q, want %d %q", c.CliMsize, ver, S, r.Msize, r.Version, M, wver)
@@ -2085,7 +2415,7 @@ func execPipe(pc *PipeCase) error {
 	hx.Eval()
 	hx.Sample("pipelined", pc)
 	if pc.Size > min32(eff(pc.SrvMsize), pc.CliMsize) && pc.Size <= eff(pc.SrvMsize) {
-		hx.NonTrivial("pipelined", pc.SrvMsize, pc.CliMsize, pc.Dotu, pc.Size, pc.Mode, pc.Mid, pc.Cut)
+		hx.NonTrivial("pipelined", pc.SrvMsize, pc.CliMsize, pc.Dotu, pc.Size, pc.Mode, pc.Mid, pc.Cut, pc.vtag())
 	}
 	return finish(runPipe(pc))
 }
@@ -2103,6 +2433,10 @@ func TestEnumPipelined(t *testing.T) {
 			t.Fatalf("%+v: %v", pc, err)
 		}
 	}
+	tagp := func(v uint16) *uint16 { return &v }
+	// the tag of the Tversion: NOTAG as every ordinary client sends it, and
+	// ordinary tags (any tag is legal on the wire)
+	vtags := []*uint16{nil, tagp(0), tagp(1), tagp(7), tagp(0xFFFE)}
 	for _, s := range []uint32{0, 8192, 1024} {
 		S := eff(s)
 		for _, c := range []uint32{24, 25, 64, 128, 1000} {
@@ -2113,7 +2447,14 @@ func TestEnumPipelined(t *testing.T) {
 				for _, sz := range uniq([]uint32{0, 6, c - 1, c, c + 1, c + 2, 2 * c, 320, S - 1, S, S + 1, 1 << 31}) {
 					for _, mode := range []string{"hdr", "full"} {
 						for _, mid := range []bool{false, true} {
-							one(&PipeCase{SrvMsize: s, CliMsize: c, Dotu: dotu, Size: sz, Mode: mode, Mid: mid})
+							for _, vt := range vtags {
+								// sizes that are illegal under either limit say nothing
+								// more with a tagged Tversion
+								if vt != nil && (sz < 7 || sz > S) {
+									continue
+								}
+								one(&PipeCase{SrvMsize: s, CliMsize: c, Dotu: dotu, Size: sz, Mode: mode, Mid: mid, VTag: vt})
+							}
 						}
 					}
 				}
@@ -2131,12 +2472,15 @@ func TestEnumPipelined(t *testing.T) {
 				}
 				for cut := 1; cut < vlen+int(sz); cut++ {
 					one(&PipeCase{SrvMsize: cf[0], CliMsize: cf[1], Dotu: dotu, Size: sz, Mode: "full", Cut: cut})
+					if cf[1] == 64 && (sz == cf[1]+1 || sz == 320) {
+						one(&PipeCase{SrvMsize: cf[0], CliMsize: cf[1], Dotu: dotu, Size: sz, Mode: "full", Cut: cut, VTag: tagp(7)})
+					}
 				}
 			}
 		}
 	}
 	hx.ExtraAdd("pipelined_probes", int64(n))
-	hx.Exhaustive("frames pipelined behind the msize-lowering Tversion in one write: server msize {default, 8192, 1024} x client msize {24, 25, 64, 128, 1000} x dialect x announced size {0, 6, c-1, c, c+1, c+2, 2c, 320, s-1, s, s+1, 2^31} x {header only, complete Tattach/Twalk of that size} x {directly behind, behind one small request}; and every split point of Tversion + frame for server 1024 / client {64, 24} x sizes {c-1, c, c+1, 320, 1024, 1025}")
+	hx.Exhaustive("frames pipelined behind the msize-lowering Tversion in one write: server msize {default, 8192, 1024} x client msize {24, 25, 64, 128, 1000} x dialect x announced size {0, 6, c-1, c, c+1, c+2, 2c, 320, s-1, s, s+1, 2^31} x {header only, complete Tattach/Twalk of that size} x {directly behind, behind one small request} x tag of the Tversion {NOTAG; 0, 1, 7, 0xFFFE for the sizes 7..s}; and every split point of Tversion + frame for server 1024 / client {64, 24} x sizes {c-1, c, c+1, 320, 1024, 1025} with NOTAG, and for client 64 x sizes {c+1, 320} also with Tversion tag 7")
 }
 
 // ---------------------------------------------------------------------------
@@ -2406,6 +2750,11 @@ func replayEnv(t *testing.T, e *hx.Envelope) {
 		cv = &c
 		hx.Journal(e.Test, &c)
 		err = finish(runConnect(&c))
+	case "clntio":
+		var c ClntIOCase
+		dec(&c)
+		cv = &c
+		err = execClntIO(&c)
 	case "frame":
 		var c FrameCase
 		dec(&c)
